@@ -251,7 +251,7 @@ type workerProc struct {
 func startWorker(self string, u *Unit) (*workerProc, error) {
 	dir := u.Dir
 	if dir == "" {
-		dir = "/repo"
+		dir = repoRoot()
 	}
 	tags := u.Tags
 	if tags == "" {
@@ -327,6 +327,14 @@ func (w *workerProc) run(j *Job) (*Result, error) {
 
 func unitKey(u *Unit) string {
 	return u.Dir + "|" + u.Pkg + "|" + strings.Join(u.Overlay, ",") + "|" + u.Tags
+}
+
+// repoRoot is /repo; VF_REPO redirects a run to a scratch worktree (used to try seeded changes without touching /repo)
+func repoRoot() string {
+	if r := os.Getenv("VF_REPO"); r != "" {
+		return r
+	}
+	return "/repo"
 }
 
 func verifRoot() string {
